@@ -131,6 +131,28 @@ func Load(dir string, allSyntax bool) *World {
 			w.repoFuncs = append(w.repoFuncs, fn)
 		}
 	}
+	// a generic function is analysed through its instances (the template's body has type parameters
+	// where the instances have types); the template itself only when nothing instantiates it
+	{
+		hasInst := map[*ssa.Function]bool{}
+		for _, fn := range w.repoFuncs {
+			if o := fn.Origin(); o != nil && o != fn {
+				hasInst[o] = true
+			}
+		}
+		var keep []*ssa.Function
+		for _, fn := range w.repoFuncs {
+			top := fn
+			for top.Parent() != nil {
+				top = top.Parent()
+			}
+			if hasInst[top] && top.Origin() == nil || (hasInst[top] && top.Origin() == top) {
+				continue
+			}
+			keep = append(keep, fn)
+		}
+		w.repoFuncs = keep
+	}
 	currentWorld = w
 	sort.Slice(w.repoFuncs, func(i, j int) bool {
 		a, b := w.repoFuncs[i], w.repoFuncs[j]
